@@ -199,7 +199,7 @@ def _harness(pers, custom, with_ctx, via_comm, tasks):
                         raise Violation('continue_of_missing_checkpoint_ran_something', **facts)
                     NOTES.witness('continue_missing')
                     continue
-                ci0, x0 = created.pop(pid)
+                ci0, x0 = created[pid]   # the checkpoint stays in the persister: a later continue of the same id is just as valid
                 ran = [r for r in new_runs if r[1] == pid]
                 if [r[2] for r in ran][:1] != ['run'] or ran[0][3] != x0 or ran[0][0] != CLASSES[ci0].__name__:
                     raise Violation('continue_did_not_resume_checkpoint', ran=[r[2] for r in ran], **facts)
